@@ -462,8 +462,18 @@ func (m *Manager) validatedPool(hashStr string, height uint64) *syncPool {
 	p := m.getOrCreatePool(hashStr, height)
 	if p.isValidatedDataHash.CompareAndSwap(false, true) {
 		log.Debugw("pool marked validated", "datahash", hashStr)
-		// if pool is proven to be valid, add all collected peers to discovered nodes
-		m.nodes.add(p.peers()...)
+		// if pool is proven to be valid, add all collected peers to discovered nodes, except
+		// those that were blacklisted after they had announced the hash
+		peers := p.peers()
+		reachable := make([]peer.ID, 0, len(peers))
+		for _, peerID := range peers {
+			if m.isBlacklistedPeer(peerID) {
+				p.remove(peerID)
+				continue
+			}
+			reachable = append(reachable, peerID)
+		}
+		m.nodes.add(reachable...)
 	}
 	return p
 }
